@@ -1121,15 +1121,21 @@ DLLIMPORT int cfg_opt_setmulti(cfg_t *cfg, cfg_opt_t *opt, unsigned int nvalues,
 	}
 
 	old = *opt;
+	old.comment = NULL;	/* the annotation stays with opt */
 	opt->nvalues = 0;
 	opt->values = NULL;
 
 	for (i = 0; i < nvalues; i++) {
+		char *comment;
+
 		if (cfg_setopt(cfg, opt, values[i]))
 			continue;
 
 		/* ouch, revert */
+		comment = opt->comment;
+		opt->comment = NULL;
 		cfg_free_value(opt);
+		opt->comment = comment;
 		opt->nvalues = old.nvalues;
 		opt->values = old.values;
 		opt->flags &= ~(CFGF_RESET | CFGF_MODIFIED);
